@@ -4,6 +4,7 @@ import GroupbyVerif.Model.GroupBy
 import GroupbyVerif.Model.RowSel
 import GroupbyVerif.Model.Cumulative
 import GroupbyVerif.Model.Rolling
+import GroupbyVerif.Model.Ema
 import GroupbyVerif.Generated.Constants
 
 /-!
@@ -123,6 +124,20 @@ def parseRollOp (s : String) : Option RollOp :=
   | "sum" => some .sum | "mean" => some .mean | "min" => some .min | "max" => some .max
   | "shift" => some .shift | "diff" => some .diff
   | _ => none
+
+def parseRat (s : String) : Option Rat :=
+  match s.splitOn "/" with
+  | [a] => (parseInt a).map fun n => (n : Rat)
+  | [a, b] => do
+    let n ← parseInt a
+    let d ← parseNat b
+    if d == 0 then none else pure ((n : Rat) / (d : Rat))
+  | _ => none
+
+def showRat (q : Rat) : String := if q.den == 1 then toString q.num else s!"{q.num}/{q.den}"
+
+def showEma (vs : List (Option (Option Rat))) : String :=
+  ",".intercalate (vs.map fun | none => "K" | some none => "_" | some (some q) => showRat q)
 
 def showInts (vs : List Int) : String := ",".intercalate (vs.map toString)
 
